@@ -66,6 +66,43 @@ theorem ex_step (s s' : St) (e : Ev) (hi : Inv s) (h : step s e = some s') (o' :
     | (simp only [Option.some.injEq] at h; subst h; revert h0 h2; (try dsimp only); simp only [upd]; split <;> grind)
     | (simp only [Option.some.injEq] at h; subst h; revert h0 h2; (try dsimp only); grind)
 
+theorem W_ext (a b : W) (h1 : a.st = b.st) (h2 : a.ex = b.ex) (h3 : a.tag = b.tag) : a = b := by
+  cases a; cases b; simp_all
+
+/-- while no activation exchange of `o` is logged, the object stays outside an activation whose
+    restart state is still to be fetched, and no effective fetch happens -/
+theorem quiet_step (s s' : St) (e : Ev) (hi : Inv s) (h : step s e = some s') (o' : Nat)
+    (h0 : (s.obj o').w.st ≠ sActive ∨ (s.obj o').w.ex = exSignaled) (ht : isTagged o' e = false) :
+    isSetex o' e = false ∧ ((s'.obj o').w.st ≠ sActive ∨ (s'.obj o').w.ex = exSignaled) := by
+  have hoa := (hi o').ownerActive
+  have hres := (hi o').resNotActive
+  cases e with
+  | setex a o b af =>
+    simp only [step] at h
+    split at h
+    · rename_i hg
+      simp only [Option.some.injEq] at h; subst h
+      obtain ⟨hl, ho, hph, hb, haf⟩ := hg
+      by_cases hoo : o = o'
+      · subst hoo
+        have hact : (s.obj o).w.st = sActive := (hoa hl).1 (by simp [ho])
+        have hex : (s.obj o).w.ex = exSignaled := by
+          rcases h0 with h0 | h0
+          · exact absurd hact h0
+          · exact h0
+        have hbe : b = af := by subst hb; subst haf; exact W_ext _ _ rfl hex rfl
+        refine ⟨by simp [isSetex, hbe], ?_⟩
+        right; subst haf; simp [upd]
+      · refine ⟨by simp [isSetex, hoo], ?_⟩
+        simpa [upd, Ne.symm hoo] using h0
+    · simp at h
+  | _ =>
+    simp only [step] at h <;> (repeat' split at h) <;>
+    first
+    | (simp at h; done)
+    | (simp only [Option.some.injEq] at h; subst h; revert ht; (try dsimp only); simp only [upd]; split <;> grind)
+    | (simp only [Option.some.injEq] at h; subst h; revert ht; (try dsimp only); grind)
+
 attribute [local grind] pendingish target
 
 theorem live_step (s s' : St) (e : Ev) (h : step s e = some s') (o' : Nat)
@@ -114,7 +151,7 @@ theorem helper_fwd_step (s s' : St) (e : Ev) (h : step s e = some s') (o : Nat) 
   cases e <;> simp only [step] at h <;> (repeat' split at h) <;>
     first
     | (simp at h; done)
-    | (simp only [Option.some.injEq] at h; subst h; revert h1; (try simp only [upd]); grind [List.mem_erase_of_ne, List.find?_some])
+    | (simp only [Option.some.injEq] at h; subst h; revert h1; (try simp only [upd]); grind)
 
 theorem enter_step (s s' : St) (a o ns : Nat) (h : step s (.stsEnter a o ns) = some s') :
     (s'.act a).sts = .entered o ∧ s'.obj = s.obj ∧ (s.obj o).live = true := by
@@ -184,9 +221,6 @@ structure Track (s : St) (sv : Bool) (ow : List (Nat × Nat)) (o ie0 : Nat) : Pr
   R : (s.obj o).epoch = ie0 → pendingish (s.obj o).w = false
   Q : ie0 < (s.obj o).epoch → (sv = true ∨ pendingish (s.obj o).w = true)
   P : sv = true ∨ pendingish (s.obj o).w = true ∨ (s.obj o).w.st = sTerminated ∨ Carrier s sv ow o ie0
-
-theorem W_ext (a b : W) (h1 : a.st = b.st) (h2 : a.ex = b.ex) (h3 : a.tag = b.tag) : a = b := by
-  cases a; cases b; simp_all
 
 theorem track_step (s s' : St) (e : Ev) (sv : Bool) (ow : List (Nat × Nat)) (o ie0 : Nat)
     (ht : Track s sv ow o ie0) (h : step s e = some s') :
@@ -314,5 +348,130 @@ theorem track_step (s s' : St) (e : Ev) (sv : Bool) (ow : List (Nat × Nat)) (o 
             simp only [Prod.mk.injEq] at hc
             exact hev ⟨ns, by rw [hc.1, hc.2]⟩
           · exact List.mem_cons_of_mem _ hm
+
+/-- helpers that decided to retry and have not re-entered `set_thread_state` yet, after a log -/
+def owing : List (Nat × Nat) → List Ev → List (Nat × Nat)
+  | ow, [] => ow
+  | ow, e :: es => owing (owStep ow e) es
+
+theorem track_log (o ie0 : Nat) : ∀ (post : List Ev) (s s' : St) (sv : Bool) (ow : List (Nat × Nat)),
+    Track s sv ow o ie0 → runLog step s post = some s' →
+    Track s' (sv || post.any (isServe o)) (owing ow post) o ie0 := by
+  intro post
+  induction post with
+  | nil => intro s s' sv ow ht h; simp at h; subst h; simpa [owing] using ht
+  | cons e es ih =>
+    intro s s' sv ow ht h
+    simp only [runLog] at h
+    cases hs : step s e with
+    | none => simp [hs] at h
+    | some s1 =>
+      simp only [hs] at h
+      have := ih s1 s' _ _ (track_step s s1 e sv ow o ie0 ht hs) h
+      simpa [owing, Bool.or_assoc] using this
+
+/-- a pending object that leaves the pending states within an accepted segment is activated there -/
+theorem pend_leave_log (o : Nat) : ∀ (seg : List Ev) (s s' : St), Inv s → runLog step s seg = some s' →
+    pendingish (s.obj o).w = true → pendingish (s'.obj o).w = true ∨ seg.any (isTagged o) = true := by
+  intro seg
+  induction seg with
+  | nil => intro s s' _ h hp; simp at h; subst h; exact Or.inl hp
+  | cons e es ih =>
+    intro s s' hi h hp
+    simp only [runLog] at h
+    cases hs : step s e with
+    | none => simp [hs] at h
+    | some s1 =>
+      simp only [hs] at h
+      cases hp1 : pendingish (s1.obj o).w with
+      | true =>
+        rcases ih s1 s' (step_inv s s1 e hi hs) h hp1 with h2 | h2
+        · exact Or.inl h2
+        · right; simp [h2]
+      | false => right; simp [pend_leave_step s s1 e hi hs o hp hp1]
+
+/-- an effective restart-state fetch needs an activation first, unless the object is in an
+    activation that has not fetched its restart state yet -/
+theorem setex_needs_tagged (o : Nat) : ∀ (seg : List Ev) (s s' : St), Inv s → runLog step s seg = some s' →
+    ((s.obj o).w.st ≠ sActive ∨ (s.obj o).w.ex = exSignaled) →
+    seg.any (isSetex o) = true → seg.any (isTagged o) = true := by
+  intro seg
+  induction seg with
+  | nil => intro s s' _ _ _ h; simp at h
+  | cons e es ih =>
+    intro s s' hi h h0 hx
+    simp only [runLog] at h
+    cases hs : step s e with
+    | none => simp [hs] at h
+    | some s1 =>
+      simp only [hs] at h
+      cases ht : isTagged o e with
+      | true => simp [ht]
+      | false =>
+        have hk := quiet_step s s1 e hi hs o h0 ht
+        simp only [List.any_cons, hk.1, Bool.false_or] at hx
+        simp [ih s1 s' (step_inv s s1 e hi hs) h hk.2 hx]
+
+/-! ### What is enabled -/
+
+theorem en_stsLoad (s : St) (a o : Nat) (hl : (s.obj o).live = true)
+    (hs : (s.act a).sts = .entered o ∨ ∃ lw le, (s.act a).sts = .loaded o lw le) :
+    (step s (.stsLoad a o (s.obj o).w)).isSome = true := by
+  rcases hs with hs | ⟨lw, le, hs⟩ <;> simp [step, hl, hs]
+
+theorem en_sasDecide (s : St) (a o : Nat) (cur prev : W) (he ce : Nat)
+    (hs : (s.act a).sas = some (o, cur, prev, he, ce)) :
+    (step s (.sasAbort a o)).isSome = true ∨ (step s (.sasRetry a o)).isSome = true := by
+  by_cases hc : cur.st = prev.st ∧ cur ≠ prev
+  · left; simp [step, hs, hc]
+  · right; simp only [step, hs]; simp [hc]
+
+theorem en_sasLoad (s : St) (a o : Nat) (hp : W × Nat) (hl : (s.obj o).live = true)
+    (hm : hp ∈ (s.obj o).helpers) (hs : (s.act a).sas = none) :
+    (step s (.sasLoad a o (s.obj o).w hp.1)).isSome = true := by
+  simp only [step, hl, hs, and_self, ↓reduceIte]
+  cases hf : (s.obj o).helpers.find? (fun h => h.1 == hp.1) with
+  | some h => simp
+  | none =>
+    have := List.find?_eq_none.1 hf hp hm
+    simp at this
+
+/-- a constructed object that is pending or pending_boost can take an internal step: its unique
+    token moves (queue insertion, `pending_boost → pending`, pop, activation exchange) -/
+theorem en_token (s : St) (hi : Inv s) (o : Nat) (hl : (s.obj o).live = true)
+    (hp : pendingish (s.obj o).w = true) :
+    (∃ a, (step s (.push a o)).isSome = true) ∨
+    (∃ a, (s.obj o).w.st = sBoost ∧ (step s (.set a o (s.obj o).w ⟨sPending, (s.obj o).w.ex, (s.obj o).w.tag + 1⟩)).isSome = true) ∨
+    (∃ a, (step s (.tagged a o (s.obj o).w ⟨sActive, (s.obj o).w.ex, (s.obj o).w.tag + 1⟩)).isSome = true) ∨
+    (∃ a, (step s (.got a o (s.obj o).w false)).isSome = true) := by
+  have bi := hi o
+  have hst : (s.obj o).w.st = sPending ∨ (s.obj o).w.st = sBoost := by simpa [pendingish] using hp
+  cases hf : (s.obj o).fresh with
+  | true =>
+    have h5 := bi.tokFresh hl hf
+    have hq : (s.obj o).q = 0 := by have := h5.1; simp only [tokens] at this; omega
+    left; exact ⟨0, by simp [step, hl, h5.2.1, hf, hq]⟩
+  | false =>
+    have htok := bi.tokPending hl hf hp
+    cases hpu : (s.obj o).pusher with
+    | some p =>
+      rcases hst with h | h
+      · left; exact ⟨p, by simp [step, hl, h, hpu]⟩
+      · right; left; exact ⟨p, h, by simp [step, hl, h, hpu]⟩
+    | none =>
+      have hpend : (s.obj o).w.st = sPending := by
+        rcases hst with h | h
+        · exact h
+        · have := bi.boostPusher hl h; simp [hpu] at this
+      cases hh : (s.obj o).holder with
+      | some a =>
+        right; right; left
+        have := bi.hold a hh
+        exact ⟨a, by simp [step, hl, hh, this, hpend]⟩
+      | none =>
+        have hq : 0 < (s.obj o).q := by
+          simp only [tokens, hpu, hh, b2n] at htok; simp at htok; omega
+        right; right; right
+        exact ⟨0, by simp [step, hl, hh, hq]⟩
 
 end PikaVerif.Sched
